@@ -19,7 +19,9 @@
 #include "lib_stable/reed-solomon_gf_2_8/of_reed-solomon_gf_2_8_includes.h"
 #include "lib_stable/reed-solomon_gf_2_m/of_reed-solomon_gf_2_m_includes.h"
 #include "lib_stable/ldpc_staircase/of_ldpc_includes.h"
+#include "lib_stable/2d_parity_matrix/of_2d_parity_includes.h"
 #include <ctype.h>
+#include <unistd.h>
 #include <stdarg.h>
 
 /* ------------------------------------------------------------------ configuration */
@@ -70,7 +72,33 @@ static void make_codeword (const cfg_t *c)
 		/* dense part */
 		for (j = idl; j < c->len; j++) CW[i][j] = (unsigned char) (vf_mix64 ((uint64_t) i * 131 + (uint64_t) j * 7919 + 17) >> 13);
 	}
-	if (c->codec == 3) {
+	if (c->codec == 5) {
+		/* 2D parity: the reference matrix is the library's own (its product structure is checked by h_enc --mode 2d);
+		 * each check has its own repair symbol = XOR of the sources of the check */
+		of_session_t *s = NULL;
+		of_2d_parity_parameters_t p;
+		int row, col;
+		Href = bm_new (c->r, c->n);
+		memset (&p, 0, sizeof p); p.nb_source_symbols = (UINT32) c->k; p.nb_repair_symbols = (UINT32) c->r; p.encoding_symbol_length = (UINT32) c->len;
+		if (of_create_codec_instance (&s, OF_CODEC_2D_PARITY_MATRIX_STABLE, OF_ENCODER, 0) == OF_STATUS_OK && s) {
+			if (of_set_fec_parameters (s, (of_parameters_t *) &p) == OF_STATUS_OK) {
+				of_mod2sparse *m = ((of_2d_parity_cb_t *) s)->pchk_matrix;
+				of_mod2entry *e;
+				for (row = 0; row < c->r && m; row++)
+					for (e = of_mod2sparse_first_in_row (m, row); !of_mod2sparse_at_end_row (e); e = of_mod2sparse_next_in_row (e)) {
+						col = e->col < c->r ? e->col + c->k : e->col - c->r;
+						if (col >= 0 && col < c->n) bm_set (Href, row, col);
+					}
+			}
+			of_release_codec_instance (s);
+		}
+		for (row = 0; row < c->r; row++) {
+			int rep = -1;
+			for (col = c->k; col < c->n; col++) if (bm_get (Href, row, col)) rep = col;
+			if (rep < 0) continue;
+			for (i = 0; i < c->k; i++) if (bm_get (Href, row, i)) for (j = 0; j < c->len; j++) CW[rep][j] ^= CW[i][j];
+		}
+	} else if (c->codec == 3) {
 		int row;
 		Href = rfc5170_H (c->k, c->n, c->N1, (uint64_t) c->seed, NULL);
 		for (row = 0; row < c->r; row++) {
@@ -134,6 +162,7 @@ static int  g_viol_in_run;
 static void viol (const char *prop, const char *sig)
 {
 	g_viol_in_run++;
+	if (G.codec == 5 && strcmp (prop, "MACHINERY")) prop = "C16";	/* every clause about the 2D codec belongs to C16 */
 	vf_viol (prop, sig, "%s", g_case);
 }
 
@@ -190,7 +219,7 @@ static int is_app_ptr (world_t *w, const void *p)
 static int world_open (world_t *w)
 {
 	of_status_t st;
-	of_codec_id_t id = G.codec == 1 ? OF_CODEC_REED_SOLOMON_GF_2_8_STABLE : G.codec == 2 ? OF_CODEC_REED_SOLOMON_GF_2_M_STABLE : OF_CODEC_LDPC_STAIRCASE_STABLE;
+	of_codec_id_t id = G.codec == 1 ? OF_CODEC_REED_SOLOMON_GF_2_8_STABLE : G.codec == 2 ? OF_CODEC_REED_SOLOMON_GF_2_M_STABLE : G.codec == 5 ? OF_CODEC_2D_PARITY_MATRIX_STABLE : OF_CODEC_LDPC_STAIRCASE_STABLE;
 	st = of_create_codec_instance (&w->ses, id, OF_DECODER, 0);
 	if (st != OF_STATUS_OK || !w->ses) { viol (PROP, "call=create|kind=status-not-ok"); return 0; }
 	if (G.codec == 1) {
@@ -200,6 +229,10 @@ static int world_open (world_t *w)
 	} else if (G.codec == 2) {
 		of_rs_2_m_parameters_t p; memset (&p, 0, sizeof p);
 		p.nb_source_symbols = (UINT32) G.k; p.nb_repair_symbols = (UINT32) G.r; p.encoding_symbol_length = (UINT32) G.len; p.m = (UINT16) G.m;
+		st = of_set_fec_parameters (w->ses, (of_parameters_t *) &p);
+	} else if (G.codec == 5) {
+		of_2d_parity_parameters_t p; memset (&p, 0, sizeof p);
+		p.nb_source_symbols = (UINT32) G.k; p.nb_repair_symbols = (UINT32) G.r; p.encoding_symbol_length = (UINT32) G.len;
 		st = of_set_fec_parameters (w->ses, (of_parameters_t *) &p);
 	} else {
 		of_ldpc_parameters_t p; memset (&p, 0, sizeof p);
@@ -294,7 +327,7 @@ static void observe (world_t *w, int kind, int st, int full)
 {
 	int i, k = G.k, navail = 0, complete, gst;
 	char sig[200];
-	const char *cn = G.codec == 1 ? "rs28" : G.codec == 2 ? (G.m == 4 ? "rs2m4" : "rs2m8") : "ldpc";
+	const char *cn = G.codec == 1 ? "rs28" : G.codec == 2 ? (G.m == 4 ? "rs2m4" : "rs2m8") : G.codec == 5 ? "2d" : "ldpc";
 	const char *call = kind == 1 ? "DWS" : kind == 2 ? "SAS" : kind == 3 ? "FINISH" : "query";
 
 	complete = of_is_decoding_complete (w->ses) ? 1 : 0;
@@ -343,7 +376,7 @@ static void observe (world_t *w, int kind, int st, int full)
 		else if (st != OF_STATUS_OK && st != OF_STATUS_FAILURE) { snprintf (sig, sizeof sig, "codec=%s|call=FINISH|kind=status-%d|complete=%d|cb=%d", cn, st, complete, G.cbmode); viol (G.cbmode >= 2 ? "C11" : "C10", sig); }
 	}
 	/* C10: the very pointer supplied for a source symbol submitted while unknown */
-	if (gst == OF_STATUS_OK)
+	if (gst == OF_STATUS_OK && G.codec != 5)
 		for (i = 0; i < k; i++)
 			if (w->first_ptr[i] && w->src_tab[i] != w->first_ptr[i]) {
 				snprintf (sig, sizeof sig, "codec=%s|call=%s|kind=submitted-source-pointer-not-reported|%s", cn, call, w->src_tab[i] ? "other-pointer" : "null");
@@ -352,7 +385,7 @@ static void observe (world_t *w, int kind, int st, int full)
 			}
 
 	/* C02: MDS (RS only) */
-	if (G.codec != 3 && G.cbmode < 2) {
+	if (G.codec != 3 && G.codec != 5 && G.cbmode < 2) {
 		if (w->nsub < k && complete) { snprintf (sig, sizeof sig, "codec=%s|call=%s|kind=complete-with-fewer-than-k", cn, call); viol ("C02", sig); }
 		if (w->nsub >= k && (kind == 1 || kind == 3) && !(complete && gst == OF_STATUS_OK && navail == k)) {
 			snprintf (sig, sizeof sig, "codec=%s|call=%s|kind=not-complete-with-k-symbols", cn, call); viol ("C02", sig);
@@ -364,17 +397,17 @@ static void observe (world_t *w, int kind, int st, int full)
 	}
 
 	/* C03 / C04: LDPC against the RFC 5170 matrix */
-	if (G.codec == 3 && G.cbmode < 2 && (G.n <= 64 || full)) {
+	if ((G.codec == 3 || G.codec == 5) && G.cbmode < 2 && (G.n <= 64 || full)) {
 		uint64_t known[(G.n + 63) / 64 + 1];
 		known_set (w, known);
 		if (kind == 3) {
 			int nu, rk = gf2_rank_unknown (Href, known, &nu);
 			int recoverable = rk == nu;
 			if (recoverable != complete) {
-				snprintf (sig, sizeof sig, "codec=ldpc|call=FINISH|kind=%s|api=%s", recoverable ? "recoverable-but-not-recovered" : "complete-though-not-determined", w->path == 2 ? "SAS" : "DWS");
+				snprintf (sig, sizeof sig, "codec=%s|call=FINISH|kind=%s|api=%s", cn, recoverable ? "recoverable-but-not-recovered" : "complete-though-not-determined", w->path == 2 ? "SAS" : "DWS");
 				viol ("C03", sig);
 			}
-		} else if (w->path != 2 && !w->finished) {
+		} else if (G.codec == 3 && w->path != 2 && !w->finished) {
 			int bad = 0, all = 1;
 			gf2_peel (Href, known);
 			for (i = 0; i < k; i++) {
@@ -519,6 +552,18 @@ static vf_h128 digest (world_t *w)
 				vf_h_u64 (&h, ptr_class (w, p, seen, &nseen));
 				if (p) vf_h_bytes (&h, p, (size_t) G.len);
 			}
+	} else if (G.codec == 5) {
+		of_2d_parity_cb_t *cb = (of_2d_parity_cb_t *) w->ses;
+		digest_sparse (&h, cb->pchk_matrix);
+		vf_h_u64 (&h, cb->nb_source_symbol_ready); vf_h_u64 (&h, cb->nb_repair_symbol_ready); vf_h_u64 (&h, cb->first_non_decoded);
+		vf_h_u64 (&h, (uint64_t) (cb->index_rows != NULL) * 2 + (uint64_t) (cb->index_cols != NULL)); vf_h_u64 (&h, (uint64_t) (cb->pchk_matrix_simplified != NULL));
+		if (cb->tab_nb_unknown_symbols) vf_h_bytes (&h, cb->tab_nb_unknown_symbols, sizeof (UINT16) * (size_t) G.r);
+		if (cb->tab_nb_enc_symbols_per_equ) vf_h_bytes (&h, cb->tab_nb_enc_symbols_per_equ, sizeof (UINT16) * (size_t) G.r);
+		if (cb->tab_nb_equ_for_repair) vf_h_bytes (&h, cb->tab_nb_equ_for_repair, sizeof (UINT16) * (size_t) G.r);
+		if (cb->tab_const_term_of_equ)
+			for (i = 0; i < G.r; i++) { void *p = cb->tab_const_term_of_equ[i]; vf_h_u64 (&h, ptr_class (w, p, seen, &nseen)); if (p) vf_h_bytes (&h, p, (size_t) G.len); }
+		if (cb->encoding_symbols_tab)
+			for (i = 0; i < G.n; i++) { void *p = cb->encoding_symbols_tab[i]; vf_h_u64 (&h, ptr_class (w, p, seen, &nseen)); if (p) vf_h_bytes (&h, p, (size_t) G.len); }
 	} else if (G.codec == 1) {
 		of_rs_cb_t *cb = (of_rs_cb_t *) w->ses;
 		vf_h_u64 (&h, cb->nb_available_symbols); vf_h_u64 (&h, cb->nb_available_source_symbols);
@@ -907,6 +952,20 @@ static void add_with_cb (int codec, int m, int k, int r, int N1, int seed, const
 	}
 }
 
+/* does the 2D codec accept (k,r)? asked to the library in a forked child (a crash means "no") */
+static void probe_2d (long it, void *arg)
+{
+	of_session_t *s = NULL;
+	of_2d_parity_parameters_t p;
+	int k = (int) (it / 64), r = (int) (it % 64);
+	(void) arg;
+	memset (&p, 0, sizeof p); p.nb_source_symbols = (UINT32) k; p.nb_repair_symbols = (UINT32) r; p.encoding_symbol_length = 4;
+	if (of_create_codec_instance (&s, OF_CODEC_2D_PARITY_MATRIX_STABLE, OF_DECODER, 0) != OF_STATUS_OK || !s) _exit (1);
+	if (of_set_fec_parameters (s, (of_parameters_t *) &p) != OF_STATUS_OK) _exit (1);
+	of_release_codec_instance (s);
+}
+static int accepted_2d (int k, int r) { return vf_run_isolated (probe_2d, (long) k * 64 + r, NULL, 20, NULL, NULL, 0) == 0; }
+
 static void grid_bfs (const char *which, const char *cbset, int thorough)
 {
 	int k, r, N1, s;
@@ -915,6 +974,10 @@ static void grid_bfs (const char *which, const char *cbset, int thorough)
 		int N4 = (int) vf_opt_long ("nrs4", thorough ? 9 : 6);
 		for (k = 1; k < Nrs; k++) for (r = 1; k + r <= Nrs; r++) { add_with_cb (1, 8, k, r, 0, 0, cbset, thorough); add_with_cb (2, 8, k, r, 0, 0, cbset, thorough); }
 		for (k = 1; k < N4; k++) for (r = 1; k + r <= N4; r++) add_with_cb (2, 4, k, r, 0, 0, cbset, thorough);
+	}
+	if (strstr (which, "2d")) {
+		int nmax = (int) vf_opt_long ("nmax2d", thorough ? 12 : 9);
+		for (k = 1; k <= 16; k++) for (r = 1; r <= 23; r++) if (k + r <= nmax && accepted_2d (k, r)) add_with_cb (5, 0, k, r, 0, 0, "n", thorough);
 	}
 	if (strstr (which, "ldpc")) {
 		int kmax = (int) vf_opt_long ("kmax", thorough ? 7 : 5), rmax = (int) vf_opt_long ("rmax", thorough ? 7 : 5), nmax = (int) vf_opt_long ("nmax", thorough ? 12 : 9);
@@ -1164,6 +1227,10 @@ int main (int argc, char **argv)
 		if (strstr (which, "ldpc")) {
 			for (j = 0; j < nl; j++) add_cfg (3, 0, nlist[j][0], nlist[j][1], nlist[j][2], nlist[j][3], 4, 0, 0, 0);
 			{ int k, r, N1; for (k = 2; k <= (thorough ? 9 : 7); k++) for (r = 3; r <= (thorough ? 7 : 6); r++) for (N1 = 3; N1 <= r && N1 <= 4; N1++) if (k + r <= (thorough ? 16 : 13)) add_cfg (3, 0, k, r, N1, 1 + (k * 7 + r) % 5, 4, 0, (k + r) & 1, 0); }
+		}
+		if (strstr (which, "2d")) {
+			int k, r, nmax = thorough ? 24 : 16;
+			for (k = 1; k <= 16; k++) for (r = 1; r <= 23; r++) if (k + r <= nmax && accepted_2d (k, r)) add_cfg (5, 0, k, r, 0, 0, 4, 0, 0, 0);
 		}
 		if (strstr (which, "rs")) {
 			int k, n, nmax4 = thorough ? 15 : 12, nmax8 = thorough ? 14 : 11;
